@@ -134,8 +134,9 @@ def run_tlc(spec_dir, module, cfg, workers=16, timeout=900, extra=(), env=None, 
         if i >= 0:
             res.error_trace = parse_states(out[i:])
     if coverage:
-        for mm in re.finditer(r'^<(\w+) line \d+, col \d+ to line \d+, col \d+ of module \w+>: (\d+):(\d+)', out, re.M):
-            res.coverage[mm.group(1)] = (int(mm.group(2)), int(mm.group(3)))
+        for mm in re.finditer(r'^<(\w+) line [^>]*>: (\d+):(\d+)', out, re.M):
+            a, b = res.coverage.get(mm.group(1), (0, 0))
+            res.coverage[mm.group(1)] = (a + int(mm.group(2)), b + int(mm.group(3)))
     if not keep:
         shutil.rmtree(wd, ignore_errors=True)
     else:
